@@ -89,7 +89,9 @@ where
         .arg(format!("-seed={}", seed))
         .arg(format!("-max_len={}", max_len))
         .arg("-len_control=0")
-        .arg("-malloc_limit_mb=16")
+        // libFuzzer flags requests of >= N MiB; the property bound is "> 16 MiB", and the fuzz bodies skip
+        // inputs whose length fields ask for more than 16 MiB (known shapes), so 17 flags only the unexpected
+        .arg("-malloc_limit_mb=17")
         .arg("-rss_limit_mb=3000")
         .arg("-timeout=20")
         .arg("-print_final_stats=1")
